@@ -37,3 +37,300 @@ class FilterCallable(Contract):
         spec = select_by(cx.ctx, s, lambda x: truthy(f.fn(x, D0)))
         cx.prove("seq=select_by(self,function)", seq_eq(cx.ctx, items, spec))
         cx.prove("frame:items-unchanged", cx.ctx.heap["D"] == D0)
+
+
+def has_key(D, item, k):
+    return D[item][k] != ABSENT
+
+
+def all_items_have(cx, s, keys):
+    """Precondition of key-based methods: every item has every named key (operator.itemgetter
+    raises KeyError otherwise - documented)."""
+    D = M.heap_D(cx.ctx)
+    j = z3.Int("j!pre")
+    for k in keys:
+        kv = M.to_v(cx.it, k)
+        cx.ctx.assumptions.append(z3.ForAll([j], z3.Implies(in_range(j, s.len), has_key(D, s.at(j), kv))))
+
+
+class _FilterKV(Contract):
+    file, prop = F, "C15"
+    arity = 1
+    negate = False
+
+    def setup(self, cx):
+        self_ = cx.lod("self")
+        names = ["k1", "k2", "k3"][:self.arity]
+        vals = [cx.val(f"v{i+1}") for i in range(self.arity)]
+        all_items_have(cx, self_.base, names)
+        return {"self": self_, "kwargs": dict(zip(names, vals)), "names": names, "vals": vals}
+
+    def ensures(self, cx, result):
+        s = cx.inputs["self"].base
+        D0 = cx.old["heap"]["D"]
+        items = result_items(cx, result)
+        kvs = [(M.to_v(cx.it, n), v) for n, v in zip(cx.inputs["names"], cx.inputs["vals"])]
+
+        def match(x):
+            m = z3.And(*[D0[x][k] == v for k, v in kvs])
+            return z3.Not(m) if self.negate else m
+        spec = select_by(cx.ctx, s, match)
+        cx.prove("seq=select_by(self,key=value)", seq_eq(cx.ctx, items, spec))
+        cx.prove("frame:items-unchanged", cx.ctx.heap["D"] == D0)
+
+
+@register
+class FilterKV1(_FilterKV):
+    qualname, variant, arity = "ListOfDicts.filter", "key=value x1", 1
+
+
+@register
+class FilterKV2(_FilterKV):
+    qualname, variant, arity = "ListOfDicts.filter", "key=value x2", 2
+
+
+@register
+class FilterOutKV1(_FilterKV):
+    qualname, variant, arity, negate = "ListOfDicts.filter_out", "key=value x1", 1, True
+
+
+@register
+class FilterOutKV2(_FilterKV):
+    qualname, variant, arity, negate = "ListOfDicts.filter_out", "key=value x2", 2, True
+
+
+@register
+class FilterOutCallable(Contract):
+    file, qualname, prop, variant = F, "ListOfDicts.filter_out", "C15", "callable"
+
+    def setup(self, cx):
+        self_ = cx.lod("self")
+        f = cx.callback("function")
+        return {"self": self_, "args": [f], "f": f}
+
+    def ensures(self, cx, result):
+        s, f = cx.inputs["self"].base, cx.inputs["f"]
+        D0 = cx.old["heap"]["D"]
+        items = result_items(cx, result)
+        spec = select_by(cx.ctx, s, lambda x: z3.Not(truthy(f.fn(x, D0))))
+        cx.prove("seq=select_by(self,not function)", seq_eq(cx.ctx, items, spec))
+        cx.prove("frame:items-unchanged", cx.ctx.heap["D"] == D0)
+
+
+@register
+class FilterPartition(Contract):
+    """Lemma (spec level): select_by(s,P) and select_by(s,not P) partition the positions of s,
+    each preserving order - the sense in which filter/filter_out 'partition the items'."""
+    file, qualname, prop, variant = F, "ListOfDicts.filter", "C15", "lemma:partition"
+
+    def setup(self, cx):
+        self_ = cx.lod("self")
+        f = cx.callback("function")
+        return {"self": self_, "args": [f], "f": f}
+
+    def ensures(self, cx, result):
+        ctx = cx.ctx
+        s, f = cx.inputs["self"].base, cx.inputs["f"]
+        D0 = cx.old["heap"]["D"]
+        a = select_by(ctx, s, lambda x: truthy(f.fn(x, D0)))
+        b = select_by(ctx, s, lambda x: z3.Not(truthy(f.fn(x, D0))))
+        i = ctx.fresh("i", INT)
+        P = truthy(f.fn(s.at(i), D0))
+        # every position of s is enumerated by exactly one of the two
+        cx.prove("lemma:covers", z3.Implies(in_range(i, s.len), z3.If(
+            P, z3.And(in_range(a.enum.rk(i), a.len), a.enum.idx(a.enum.rk(i)) == i),
+            z3.And(in_range(b.enum.rk(i), b.len), b.enum.idx(b.enum.rk(i)) == i))))
+        j, j2 = ctx.fresh("j", INT), ctx.fresh("j2", INT)
+        cx.prove("lemma:disjoint", z3.Implies(z3.And(in_range(j, a.len), in_range(j2, b.len)),
+                                              a.enum.idx(j) != b.enum.idx(j2)))
+        cx.prove("lemma:order-preserved", z3.Implies(z3.And(in_range(j, a.len), in_range(j2, a.len), j < j2),
+                                                     a.enum.idx(j) < a.enum.idx(j2)))
+
+
+class _HeadTail(Contract):
+    file, prop = F, "C15"
+    tail = False
+    cases = {"n given": lambda cx, inp: z3.BoolVal(True)}
+
+    def setup(self, cx):
+        self_ = cx.lod("self")
+        n = cx.int("n")
+        cx.assume(n >= 0)
+        return {"self": self_, "args": [n], "n": n}
+
+    def ensures(self, cx, result):
+        s, n = cx.inputs["self"].base, cx.inputs["n"]
+        items = result_items(cx, result)
+        m = z3.If(n <= zint(s.len), n, zint(s.len))
+        cx.prove("len=min(n,len)", zint(items.len) == m)
+        j = cx.ctx.fresh("j", INT)
+        if self.tail:
+            cx.prove("items=last-m", z3.Implies(in_range(j, m), items.at(j) == s.at(zint(s.len) - m + j)))
+        else:
+            cx.prove("items=first-m", z3.Implies(in_range(j, m), items.at(j) == s.at(j)))
+        cx.prove("frame:items-unchanged", cx.ctx.heap["D"] == cx.old["heap"]["D"])
+
+
+@register
+class Head(_HeadTail):
+    qualname = "ListOfDicts.head"
+
+
+@register
+class Tail(_HeadTail):
+    qualname, tail = "ListOfDicts.tail", True
+
+
+@register
+class HeadDefault(Contract):
+    file, qualname, prop, variant = F, "ListOfDicts.head", "C15", "n=None"
+
+    def setup(self, cx):
+        return {"self": cx.lod("self"), "args": []}
+
+    def ensures(self, cx, result):
+        s = cx.inputs["self"].base
+        items = result_items(cx, result)
+        d = cx.it.config["DEFAULT_PEEK_ITEMS"]
+        cx.prove("len=min(default,len)", zint(items.len) == z3.If(d <= zint(s.len), d, zint(s.len)))
+
+
+@register
+class Append(Contract):
+    file, qualname, prop = F, "ListOfDicts.append", "C15"
+    cases = {"AttributeDict": lambda cx, inp: M.is_adict(inp["item"]),
+             "plain dict": lambda cx, inp: z3.And(z3.Not(M.is_adict(inp["item"])), M.is_dict(inp["item"]))}
+
+    def setup(self, cx):
+        self_ = cx.lod("self")
+        item = cx.val("item")
+        cx.assume(item != NONE)
+        cx.assume(M.heap_alloc(cx.ctx)[item])
+        return {"self": self_, "args": [item], "item": item}
+
+    def ensures(self, cx, result):
+        s, item = cx.inputs["self"].base, cx.inputs["item"]
+        D0, D = cx.old["heap"]["D"], cx.ctx.heap["D"]
+        items = result_items(cx, result)
+        j = cx.ctx.fresh("j", INT)
+        cx.prove("len=len+1", zint(items.len) == zint(s.len) + 1)
+        cx.prove("prefix=self", z3.Implies(in_range(j, s.len), items.at(j) == s.at(j)))
+        last = items.at(zint(s.len))
+        cx.prove("last-has-item-contents", D[last] == D0[item])
+        cx.prove("last-is-AttributeDict", M.is_adict(last))
+        if cx.case == "AttributeDict":
+            cx.prove("last-is-item", last == item)
+        r = cx.ctx.fresh("r", V)
+        cx.prove("frame:existing-dicts-unchanged", z3.Implies(cx.old["heap"]["alloc"][r], D[r] == D0[r]))
+
+
+class _Concat(Contract):
+    file, prop = F, "C15"
+
+    def setup(self, cx):
+        self_ = cx.lod("self")
+        other = cx.lod("other")
+        return {"self": self_, "args": [other], "other": other}
+
+    def ensures(self, cx, result):
+        s, o = cx.inputs["self"].base, cx.inputs["other"].base
+        items = result_items(cx, result)
+        j = cx.ctx.fresh("j", INT)
+        cx.prove("len=len+len", zint(items.len) == zint(s.len) + zint(o.len))
+        cx.prove("prefix=self", z3.Implies(in_range(j, s.len), items.at(j) == s.at(j)))
+        cx.prove("suffix=other", z3.Implies(in_range(j, o.len), items.at(zint(s.len) + j) == o.at(j)))
+        cx.prove("frame:items-unchanged", cx.ctx.heap["D"] == cx.old["heap"]["D"])
+
+
+@register
+class Add(_Concat):
+    qualname = "ListOfDicts.__add__"
+
+
+@register
+class Extend(_Concat):
+    qualname, variant = "ListOfDicts.extend", "ListOfDicts argument"
+
+
+@register
+class Reverse(Contract):
+    file, qualname, prop = F, "ListOfDicts.reverse", "C15"
+
+    def setup(self, cx):
+        return {"self": cx.lod("self"), "args": []}
+
+    def ensures(self, cx, result):
+        s = cx.inputs["self"].base
+        items = result_items(cx, result)
+        j = cx.ctx.fresh("j", INT)
+        cx.prove("len", zint(items.len) == zint(s.len))
+        cx.prove("items[j]=self[len-1-j]", z3.Implies(in_range(j, s.len), items.at(j) == s.at(zint(s.len) - 1 - j)))
+        cx.prove("frame:items-unchanged", cx.ctx.heap["D"] == cx.old["heap"]["D"])
+
+
+@register
+class Slice(Contract):
+    """self[lo:hi] - Python slice semantics (negative bounds wrap, clamped)."""
+    file, qualname, prop, variant = F, "ListOfDicts.__getitem__", "C15", "slice lo:hi"
+
+    def setup(self, cx):
+        from pyvc.interp import SliceVal
+        lo, hi = cx.int("lo"), cx.int("hi")
+        return {"self": cx.lod("self"), "args": [SliceVal(lo, hi, None)], "lo": lo, "hi": hi}
+
+    def ensures(self, cx, result):
+        s, lo, hi = cx.inputs["self"].base, cx.inputs["lo"], cx.inputs["hi"]
+        n = zint(s.len)
+        items = result_items(cx, result)
+
+        def norm(x):
+            x = z3.If(x < 0, x + n, x)
+            return z3.If(x < 0, 0, z3.If(x > n, n, x))
+        a, b = norm(lo), norm(hi)
+        ln = z3.If(b - a > 0, b - a, 0)
+        j = cx.ctx.fresh("j", INT)
+        cx.prove("len=max(0,hi'-lo')", zint(items.len) == ln)
+        cx.prove("items[j]=self[lo'+j]", z3.Implies(in_range(j, ln), items.at(j) == s.at(a + j)))
+
+
+@register
+class GetItemIndex(Contract):
+    file, qualname, prop, variant = F, "ListOfDicts.__getitem__", "C15", "integer index"
+
+    def setup(self, cx):
+        i = cx.int("i")
+        s = cx.lod("self")
+        cx.assume(z3.And(i >= -zint(s.base.len), i < zint(s.base.len)))
+        return {"self": s, "args": [i], "i": i}
+
+    def ensures(self, cx, result):
+        s, i = cx.inputs["self"].base, cx.inputs["i"]
+        cx.prove("item", result == s.at(z3.If(i >= 0, i, i + zint(s.len))))
+
+
+@register
+class Insert(Contract):
+    """insert = list.insert: negative indices count from the end, out-of-range clamps."""
+    file, qualname, prop = F, "ListOfDicts.insert", "C15"
+    cases = {"0<=index<len": lambda cx, inp: z3.And(inp["i"] >= 0, inp["i"] < zint(inp["self"].base.len)),
+             "index>=len": lambda cx, inp: inp["i"] >= zint(inp["self"].base.len),
+             "index<0": lambda cx, inp: inp["i"] < 0}
+
+    def setup(self, cx):
+        self_ = cx.lod("self")
+        item = cx.val("item")
+        cx.assume(z3.And(item != NONE, M.heap_alloc(cx.ctx)[item], M.is_adict(item)))
+        i = cx.int("index")
+        return {"self": self_, "args": [i, item], "item": item, "i": i}
+
+    def ensures(self, cx, result):
+        s, item, i = cx.inputs["self"].base, cx.inputs["item"], cx.inputs["i"]
+        n = zint(s.len)
+        items = result_items(cx, result)
+        pos = z3.If(i < 0, z3.If(i + n < 0, 0, i + n), z3.If(i > n, n, i))
+        j = cx.ctx.fresh("j", INT)
+        cx.prove("len=len+1", zint(items.len) == n + 1)
+        cx.prove("item-at-pos", items.at(pos) == item)
+        cx.prove("before-pos", z3.Implies(z3.And(0 <= j, j < pos), items.at(j) == s.at(j)))
+        cx.prove("after-pos", z3.Implies(z3.And(pos < j, j <= n), items.at(j) == s.at(j - 1)))
+        cx.prove("frame:items-unchanged", cx.ctx.heap["D"] == cx.old["heap"]["D"])
